@@ -1356,6 +1356,11 @@ where
                     // Sync
                     // Frontend (client) is asking for the query result now.
                     'S' => {
+                        // The server ignores Sync while it is in COPY mode and does not answer it.
+                        if server.in_copy_mode() {
+                            continue;
+                        }
+
                         debug!("Sending query to server");
 
                         match plugin_output {
